@@ -1013,7 +1013,11 @@ def r91(ctx: Ctx) -> RuleReport:
             return ('V', True)
         return None
     from ..resolve import calls_where
-    dfs_calls = calls_where(ctx, fi, lambda f: f.qualname == '_dfs', depth=2)
+    try:
+        _rf = _reach_fn(ctx)
+    except AnalysisError:
+        _rf = None
+    dfs_calls = calls_where(ctx, fi, lambda f: f.qualname == '_dfs' or (_rf is not None and f.fq == _rf.fq), depth=2)
     MSG = {'graph is empty': 'empty', 'top is not set': 'notset', 'top is not a variable in the graph': 'notvar'}
     sites: Dict[str, Set[int]] = {'empty': set(), 'notset': set(), 'notvar': set(), 'dfs': set()}
     for nd in cfg.nodes:
@@ -1195,12 +1199,30 @@ def r93(ctx: Ctx) -> RuleReport:
     return rep
 
 
+def _reach_fn(ctx: Ctx) -> FuncInfo:
+    """The reachability search of Model.errors, found by its place (the one module-level function of penman.model that Model.errors calls and whose
+    result is a set), not by its name."""
+    named = ctx.repo.maybe_func(M, '_dfs')
+    if named is not None:
+        return named
+    er = ctx.repo.func(M, 'Model.errors')
+    cands = []
+    for c, ts in ctx.cg.calls_in(er):
+        for t in ts:
+            if t.kind == 'func' and t.func.module.name == M and t.func.cls is None and t.func.parent is None and t.func not in cands:
+                cands.append(t.func)
+    cands = [f for f in cands if any(isinstance(r, ast.Return) and r.value is not None for r in walk_local(f.node))]
+    if len(cands) != 1:
+        raise AnalysisError(f'anchor vanished: the reachability search called by Model.errors ({[f.qualname for f in cands]})')
+    return cands[0]
+
+
 # ---------------------------------------------------------------------------------------------
 @rule('R95', 'the reachability search behind "unreachable" treats relations as undirected and visits every neighbour of every node it reaches')
 def r95(ctx: Ctx) -> RuleReport:
     from .graphq import _symmetric_closure, _worklist_closure
     rep = RuleReport('R95', r95.title, floor=3)
-    fi = ctx.repo.func(M, '_dfs')
+    fi = _reach_fn(ctx)
     pm = ctx.repo.parent_map(fi.node)
     # (1) symmetric closure of the adjacency map (in _dfs itself or in a helper it calls)
     key = f'{fi.fq}: every relation is entered in both directions (weak connectivity)'
